@@ -18,6 +18,7 @@ def make_method(name, d, log):
         log.append((name, self.x, self.y, self))
         if sets:
             self.y = 1
+            self.y = 2
     m.__name__ = name
     m.__qualname__ = name
     if d["k"] == "undec":
@@ -69,6 +70,14 @@ class System:
             with batch_call_watchers(p):
                 for n, v in st["items"]:
                     apply(n, v)
+        elif a == "batchraise":
+            try:
+                with batch_call_watchers(p):
+                    for n, v in st["items"]:
+                        apply(n, v)
+                    raise KeyError("escapes the batch body")
+            except KeyError:
+                pass
 
 
 def replay(beh, opts):
